@@ -63,6 +63,13 @@ def paging_bits(rng):
     return out
 
 def make_program(rng):
+    if rng.random() < 0.12:
+        # boundary-directed: interrupts disabled while the frame boundary passes, EI a few T-states into the new frame
+        # (the pending interrupt must survive a save taken inside the acceptance window)
+        org = rng.choice([0x8000, 0xC000, 0x6000])
+        k = rng.randint(0, 6)
+        tail = rng.choice([[0x00, 0x00], [0xDD, 0x00], [0x76], [0x00, 0xFB, 0x00]])
+        return ('boundary', rng.random() < 0.3), org, [0x00] * k + [0xFB] + tail + [0x00] * 6 + [0xC3, org & 0xFF, org >> 8]
     if rng.random() < 0.08:
         # boundary-directed: EI; HALT with the HALT as the last contended byte (0x7FFF) or first uncontended one
         org = rng.choice([0x7FFE, 0x7FFD, 0x7FFF, 0xBFFE])
@@ -103,7 +110,7 @@ def compare(s1, s2, ext, frame):
         diffs.append(('ram', [(i, r1[i]) for i in bad], [(i, r2[i]) for i in bad]))
     return diffs
 
-def start_snapshot(is128, org, code, rng, ext, t0=None):
+def start_snapshot(is128, org, code, rng, ext, t0=None, iff=1):
     """Create the start snapshot with trace.py itself (one NOP executed at a scratch address)."""
     args = []
     pokes = []
@@ -113,7 +120,7 @@ def start_snapshot(is128, org, code, rng, ext, t0=None):
     t0 = tr if t0 is None else t0
     sp = rng.choice([0x7F00, 0x5D00, 0xFFFE])
     args += ['-n', '-m', '1', '-s', str(0x5B00), '--reg', 'SP=%d' % sp, '--state', 'tstates=%d' % t0, '--state', 'im=%d' % rng.choice([1, 1, 2]),
-             '--state', 'iff=1', '--reg', 'I=%d' % rng.choice([0x3F, 0x80, 0xFE])]
+             '--state', 'iff=%d' % iff, '--reg', 'I=%d' % rng.choice([0x3F, 0x80, 0xFE])]
     fn = 'start.' + ext
     r = harness.run_tool('trace', args + pokes + ['128' if is128 else '48', fn])
     return fn, r
@@ -154,9 +161,12 @@ def run(shard, spec):
     for case in cases:
         rng = shard.rng('prog', case)
         is128, org, code = make_program(rng)
+        boundary = isinstance(is128, tuple)
+        if boundary:
+            is128 = is128[1]
         ext = rng.choice(['szx', 'z80'])
         cmio = rng.random() < 0.4
-        py = rng.random() < 0.25
+        py = rng.random() < (0.6 if boundary else 0.25)
         N = rng.choice([40, 80, 120]) if not py else rng.choice([30, 60])
         if case == 'witness':
             is128, org, code, ext, cmio, py, N = False, 0x7FFE, [0xFB, 0x76, 0x18, 0xFC], 'szx', True, False, 40
@@ -164,7 +174,14 @@ def run(shard, spec):
             N *= 2
         opts = (['-c'] if cmio else []) + (['--python'] if py else [])
         frame = 70908 if is128 else 69888
-        fn0, r = start_snapshot(is128, org, code, rng, ext, 20000 if case == 'witness' else None)
+        t0 = 20000 if case == 'witness' else None
+        iff0 = 1
+        if boundary:
+            t0 = (70908 if is128 else 69888) - rng.randint(1, 44)
+            iff0 = 0
+            N = min(N, 40)
+            shard.inc('observed:boundary_directed_programs')
+        fn0, r = start_snapshot(is128, org, code, rng, ext, t0, iff0)
         rp = {'case': case, 'is128': is128, 'org': org, 'code': harness.b64(bytes(code)), 'ext': ext, 'opts': opts, 'N': N}
         if not r.ok:
             shard.violation('trace.py failed creating the start snapshot: %s' % r.describe(), rp)
